@@ -145,8 +145,6 @@ def explain_case(c, text, err):
             return "KF-C02-8"
         if "expected an indented block" in err:
             return "KF-C02-9"
-    if "class Union" in c["src"] and re.search(r"^\s*\w+:\s+= ", text, re.M):
-        return "KF-C02-11"
     return None
 
 
